@@ -200,6 +200,13 @@ pub fn gen_corpus(rng: &mut StdRng, n: usize, dense_all: bool) -> Vec<Value> {
                 }
             }
         }
+        // a few very long documents: a term frequency above 255 saturates the one-byte block-WAND code
+        if rng.random_bool(0.02) {
+            let w = format!("b{}", rng.random_range(0..2));
+            for _ in 0..rng.random_range(200..700) {
+                body.push(w.clone());
+            }
+        }
         m.insert("body".into(), json!(body));
         docs.push(d);
     }
@@ -592,7 +599,14 @@ pub fn gen_query(rng: &mut StdRng, depth: u32, o: &GenOpts) -> Value {
             // clauses at the same level or nested as a Must / MustNot operand; cheap and expensive conjuncts mixed
             let ns = rng.random_range(3..6usize);
             let msm = rng.random_range(2..ns);
-            let mut cl: Vec<Value> = (0..ns).map(|_| json!({"o":"should","q":gen_query(rng, depth - 1, o)})).collect();
+            let mut cl: Vec<Value> = if rng.random_bool(0.5) {
+                (0..ns).map(|_| json!({"o":"should","q":gen_query(rng, depth - 1, o)})).collect()
+            } else {
+                // frequent words: many documents match 2 * msm clauses or more
+                let mut ws = vec!["all", "t0", "t1", "t2", "t0", "all"];
+                ws.shuffle(rng);
+                ws[..ns.min(6)].iter().map(|w| json!({"o":"should","q":{"k":"term","f":"title","t":w,"opt":*["basic","freq"].choose(rng).unwrap()}})).collect()
+            };
             let same_level = rng.random_bool(0.6);
             if same_level {
                 for _ in 0..rng.random_range(1..3) {
